@@ -53,6 +53,10 @@ func (w *Wire) Replace(b []byte) {
 type Conn struct {
 	In, Out *Wire
 	Closed  bool
+	// FailWriteAt >= 1: the n-th Write call delivers its bytes and then reports an error
+	// (a timeout / reset noticed after the data left); 0 = never.
+	FailWriteAt int
+	writes      int
 }
 
 type addr string
@@ -71,6 +75,10 @@ func (c *Conn) Write(p []byte) (int, error) {
 		return 0, io.ErrClosedPipe
 	}
 	c.Out.Write(p)
+	c.writes++
+	if c.FailWriteAt > 0 && c.writes == c.FailWriteAt {
+		return len(p), io.ErrUnexpectedEOF
+	}
 	return len(p), nil
 }
 func (c *Conn) Close() error                       { c.Closed = true; return nil }
